@@ -738,6 +738,28 @@ def guardCount (name : String) : Nat :=
   | some r => r.guards.length
   | none => 0
 
+def guardsOf (name : String) : List Guard :=
+  match findRow name with
+  | some r => r.guards
+  | none => []
+
+/-- the constructor guards of the candidate validation patch for D12 (see the report of C17):
+`if not isinstance(length, int) or not 16 <= length <= 64: raise ValueError(…)` -/
+def blake2bFixGuards : List Guard :=
+  [⟨.disj (.neg (.isInt (.param "length"))) (.neg (.chain (.lit 16) .le (.param "length") .le (.lit 64))), "ValueError"⟩]
+
+/-- `if not isinstance(min_length, int) or not isinstance(max_length, int): raise …; if min_length < 1: raise …;
+if min_length > max_length: raise …` -/
+def chunkerFixGuards : List Guard :=
+  [⟨.disj (.neg (.isInt (.param "min_length"))) (.neg (.isInt (.param "max_length"))), "ValueError"⟩,
+   ⟨.cmp .lt (.param "min_length") (.lit 1), "ValueError"⟩,
+   ⟨.cmp .gt (.param "min_length") (.param "max_length"), "ValueError"⟩]
+
+/-- `/repo` carries the candidate patch (false on the unpatched source) -/
+def d12FixedInSource : Bool :=
+  decide (guardsOf "blake2b" = blake2bFixGuards) && decide (guardsOf "gclmulchunker" = chunkerFixGuards) &&
+  kindChecks.lookup "hashing" == some "HashAdapter" && kindChecks.lookup "chunking" == some "ChunkerAdapter"
+
 /-- does `_make_config` check the adapter kind of this slot? -/
 def kindChecked (slot : String) : Bool := (kindChecks.lookup slot).isSome
 
